@@ -39,6 +39,8 @@ type cs struct {
 	E        int      `json:"e"`
 	Prefix   []int    `json:"prefix,omitempty"`
 	Race     bool     `json:"race,omitempty"`
+	// U: unbounded exploration with sleep sets (every Mazurkiewicz trace, every pool answer) instead of P/E/F bounds
+	U bool `json:"unbounded,omitempty"`
 }
 
 var circuits = []circgen.Desc{
@@ -75,6 +77,17 @@ type world struct {
 	c     *circuit.Circuit
 	lives []*live
 	fails []string
+	hobj  int
+}
+
+// hpoint: in sleep-set mode the registry of live garblings (w.lives) is a scheduler object of its own: a thread
+// touches it only inside a transition labelled with that object (after Garble returned / before Release is
+// called), so that operations on the registry are dependent on each other and on nothing else. In the bounded
+// modes the harness yields after every step instead.
+func (w *world) hpoint() {
+	if csched.InSleepMode() {
+		csched.SchedPoint("registry", w.hobj, nil)
+	}
 }
 
 func (w *world) fail(format string, a ...interface{}) {
@@ -215,6 +228,7 @@ func (w *world) thread(tid int, prog string) func() {
 			case 'G':
 				seed++
 				g, err := w.c.Garble(drbg.New(seed), key)
+				w.hpoint()
 				if err != nil {
 					w.fail("wrong-result: thread %d Garble: %v", tid, err)
 					return
@@ -223,6 +237,9 @@ func (w *world) thread(tid int, prog string) func() {
 				l := &live{g: g, key: append([]byte(nil), key...), owner: tid}
 				mine = append(mine, l)
 				w.lives = append(w.lives, l)
+				if csched.InSleepMode() {
+					w.distinctScratch()
+				}
 			case 'g':
 				seed++
 				if _, err := w.c.Garble(&failingReader{r: drbg.New(seed)}, key); err == nil {
@@ -236,6 +253,7 @@ func (w *world) thread(tid int, prog string) func() {
 				if len(mine) > 0 {
 					l := mine[len(mine)-1]
 					mine = mine[:len(mine)-1]
+					w.hpoint()
 					for i, x := range w.lives {
 						if x == l {
 							w.lives = append(w.lives[:i], w.lives[i+1:]...)
@@ -265,8 +283,10 @@ func (w *world) thread(tid int, prog string) func() {
 			case 's':
 				w.session(tid, 1+tid%2)
 			}
-			w.distinctScratch()
-			csched.Yield()
+			if !csched.InSleepMode() {
+				w.distinctScratch()
+				csched.Yield()
+			}
 		}
 		// a garbling stays valid until it is released: check what is still live at the end
 		for _, l := range mine {
@@ -279,6 +299,7 @@ func system(k cs, w *world) func() {
 	return func() {
 		w.c = circuits[k.Circ].Build()
 		vnet.Reset()
+		w.hobj = csched.NewObj(nil)
 		for i, p := range k.Programs {
 			csched.GoNamed(fmt.Sprintf("T%d", i), w.thread(i, p))
 		}
@@ -319,7 +340,13 @@ func runCaseSharded(ctx *runner.Ctx, k cs, shard, nshards int) {
 	}
 	x := &csched.Explorer{PBound: k.P, EBound: k.E, FBound: k.F, Shard: shard, NShards: nshards, Opts: csched.Options{HashStates: true}, Stop: ctx.Expired}
 	var w *world
-	x.Explore(func() {
+	explore := x.Explore
+	if k.U {
+		explore = func(system func(), visit func(r *csched.Result, p, e int) bool) {
+			x.ExploreUnbounded(system, func(r *csched.Result) bool { return visit(r, -1, -1) })
+		}
+	}
+	explore(func() {
 		w = &world{}
 		system(k, w)()
 	}, func(r *csched.Result, p, e int) bool {
@@ -337,9 +364,26 @@ func runCaseSharded(ctx *runner.Ctx, k cs, shard, nshards int) {
 			report(kk, kind, fmt.Sprintf("%s [preemptions=%d pool-answer deviations=%d]", what, p, e), r)
 			return false
 		}
-		ctx.Outcome(fmt.Sprintf("ok/threads=%d", len(k.Programs)))
+		if k.U {
+			ctx.Outcome(fmt.Sprintf("ok/unbounded/threads=%d", len(k.Programs)))
+		} else {
+			ctx.Outcome(fmt.Sprintf("ok/threads=%d", len(k.Programs)))
+		}
 		return true
 	})
+	if ctx.Replay {
+		fmt.Fprintf(os.Stderr, "explored: executions=%d sleep-blocked=%d transitions=%d truncated=%v\n", x.Executions, x.SleepBlocked, x.Transitions, x.Truncated)
+	}
+	if k.U {
+		if shard == 0 {
+			ctx.Count("unbounded_systems", 1)
+		}
+		ctx.Count("unbounded_executions", x.Executions)
+		ctx.Count("unbounded_sleep_blocked", x.SleepBlocked)
+		if x.Truncated {
+			ctx.Count("unbounded_systems_cut", 1)
+		}
+	}
 	ctx.Count("executions", x.Executions)
 	ctx.Count("transitions", x.Transitions)
 	ctx.Max("max_choice_points_per_execution", int64(x.MaxPoints))
@@ -434,9 +478,53 @@ func work(ctx *runner.Ctx) {
 			}
 		}
 	}
-	ctx.Note(fmt.Sprintf("case list: %d systems (circuit x program per thread), plus the free-running -race pass", len(cases)))
+	// unbounded exploration (sleep sets): every interleaving up to Mazurkiewicz equivalence and every pool answer
+	var ucases, uheavy []cs
+	uprogs := []string{"GER", "GRGE", "GErr", "C", "gGER"}
+	ucircs := []int{0, 1}
+	if !ctx.Quick() {
+		uprogs = progs2
+		ucircs = []int{0, 1, 2}
+	}
+	for _, ci := range ucircs {
+		for _, a := range uprogs {
+			for _, b := range uprogs {
+				ucases = append(ucases, cs{Circ: ci, Programs: []string{a, b}, U: true})
+			}
+		}
+	}
+	// three threads: each system is split over all workers
+	u3 := [][]string{{"GER", "GER", "C"}}
+	if !ctx.Quick() {
+		u3 = [][]string{{"GER", "GER", "C"}, {"GER", "GER", "GER"}, {"GER", "GRGE", "C"}, {"gGE", "GER", "GRd"}, {"GRGE", "GER", "GER"}}
+	}
+	for _, ps := range u3 {
+		uheavy = append(uheavy, cs{Circ: 0, Programs: ps, U: true})
+	}
+	ctx.Note(fmt.Sprintf("case list: %d systems explored within bounds + %d systems explored without bounds (sleep sets), plus the free-running -race pass", len(cases), len(ucases)+len(uheavy)))
 	if ctx.Shard == 0 {
+		if err := csched.SleepSelfTest(); err != nil {
+			panic(err)
+		}
 		runRace(ctx, cs{Race: true})
+	}
+	for i, k := range ucases {
+		if !ctx.Mine(i) {
+			continue
+		}
+		if ctx.Expired() {
+			return
+		}
+		runCaseSharded(ctx, k, 0, 1)
+		if i%60 == 0 {
+			ctx.Sample(k)
+		}
+	}
+	for _, k := range uheavy {
+		if ctx.Expired() {
+			return
+		}
+		runCaseSharded(ctx, k, ctx.Shard, ctx.NShards)
 	}
 	for i, k := range cases {
 		if !ctx.Mine(i) {
